@@ -223,50 +223,58 @@ Definition senc_after_body_r (h : hdr) (body : list N) : res senc :=
   if (hsize h <? 16)%N then Err else do v <- senc_body_r h body; Ok (senc_fix v).
 
 Theorem senc_pair_agree : forall h body pre post,
-  hlen h = 8%N -> hsize h = (8 + lenN body)%N -> (hsize h < 4294967296)%N -> zlen (pre ++ body ++ post) < two63 ->
+  (hlen h = 8 \/ hlen h = 16)%N -> hsize h = (hlen h + lenN body)%N -> (hsize h < 9223372036854775808)%N ->
+  zlen (pre ++ body ++ post) < two63 ->
   agree_at (senc_after_body_r h body) (senc_sr h (mkR (pre ++ body ++ post) (zlen pre) false))
            (pre ++ body ++ post) (zlen pre + zlen body).
 Proof.
-  intros h body pre post Hhl Hsz H32 Hs.
+  intros h body pre post Hhl Hsz H63 Hs.
   assert (Hfr0 : mkR (pre ++ body ++ post) (zlen pre) false = fr pre post (rnew body)).
   { unfold fr, rnew. cbn [rbuf rpos rerr]. f_equal. lia. }
   rewrite Hfr0. clear Hfr0.
   unfold senc_after_body_r, senc_sr, agree_at.
   destruct (hsize h <? 16)%N eqn:E16; [reflexivity|].
-  assert (Hb8 : 8 <= zlen body) by (rewrite zlen_lenN; lia).
   assert (Hbig : zlen body < two63).
   { rewrite !zlen_app in Hs. pose proof (zlen_nonneg pre). pose proof (zlen_nonneg post). lia. }
-  unfold senc_body_r. replace (zlen body <? 8) with false by lia.
-  destruct (read_fixed_in2 4 (rnew body) eq_refl ltac:(cbn; lia) ltac:(lia) ltac:(unfold rlen, rnew; cbn [rpos rbuf]; lia)) as [l1 [G1 F1]].
-  cbn [rnew rbuf rpos] in G1. change (0 + 4) with 4 in G1. rewrite G1, F1. cbn [rbind].
-  destruct (0 <? be l1 0 / 16777216)%N; [reflexivity|].
-  set (s1 := with_pos (rnew body) (rpos (rnew body) + 4)).
-  assert (P1 : rpos s1 = 4) by reflexivity. assert (B1 : rbuf s1 = body) by reflexivity. assert (R1 : rerr s1 = false) by reflexivity.
-  destruct (read_fixed_in2 4 s1 R1 ltac:(lia) ltac:(lia) ltac:(unfold rlen; rewrite B1, P1; lia)) as [l2 [G2 F2]].
-  rewrite B1, P1 in G2. change (4 + 4) with 8 in G2. rewrite G2, F2. cbn [rbind].
-  set (s2 := with_pos s1 (rpos s1 + 4)).
-  assert (P2 : rpos s2 = 8) by reflexivity. assert (B2 : rbuf s2 = body) by reflexivity. assert (R2 : rerr s2 = false) by reflexivity.
-  (* the raw payload: data[8:] on one side, ReadBytes(payloadLen - 8) on the other *)
+  pose proof (zlen_nonneg body) as Hnn.
   assert (Hpl : w64 (payload_len h - 8) = zlen body - 8).
-  { unfold payload_len, int_of_u64. rewrite Hhl, Hsz. rewrite zlen_lenN in *.
-    rewrite (w64_id (Z.of_N (8 + lenN body))) by (unfold two63 in *; lia).
-    rewrite (w64_id (Z.of_N (8 + lenN body) - Z.of_N 8)) by (unfold two63 in *; lia).
+  { unfold payload_len, int_of_u64. rewrite Hsz. rewrite zlen_lenN in *.
+    rewrite (w64_id (Z.of_N (hlen h + lenN body))) by (unfold two63 in *; lia).
+    rewrite (w64_id (Z.of_N (hlen h + lenN body) - Z.of_N (hlen h))) by (unfold two63 in *; lia).
     rewrite w64_id by (unfold two63 in *; lia). lia. }
   rewrite Hpl.
-  destruct (read_bytes_in (zlen body - 8) s2 R2 ltac:(lia) ltac:(lia) ltac:(unfold rlen; rewrite B2, P2; lia)) as [raw [G3 [_ F3]]].
-  rewrite B2, P2 in G3. replace (8 + (zlen body - 8)) with (zlen body) in G3 by lia. rewrite G3. cbn [rbind].
-  pose proof (gslice_len _ _ _ _ G3) as Hrl.
-  (* the two sub-sample size tests are the same test *)
-  assert (Hchk : (subu64 (hsize h) 16 <? 2 * be l2 0)%N = (zlen raw <? 2 * Z.of_N (be l2 0))).
-  { rewrite Hrl, Hsz. unfold subu64. rewrite (N.mod_small 16) by lia.
-    rewrite zlen_lenN in *.
-    replace (8 + lenN body + 18446744073709551616 - 16)%N with ((lenN body - 8) + 1 * 18446744073709551616)%N by lia.
-    rewrite N.mod_add by lia. rewrite N.mod_small by (unfold two63 in *; lia). lia. }
-  rewrite Hchk.
-  destruct (hasf (N.land (be l1 0) flags_mask) 2 && (zlen raw <? 2 * Z.of_N (be l2 0)))%bool; [reflexivity|].
-  rewrite F3. cbn [rbind]. unfold fr at 1. cbn [rerr]. unfold with_pos at 1. cbn [rerr].
-  f_equal. f_equal. subst s2 s1. unfold fr, with_pos, rnew. cbn [rbuf rpos rerr].
-  replace (zlen pre + (0 + 4 + 4 + (zlen body - 8))) with (zlen pre + zlen body) by lia. reflexivity.
+  assert (HI0 : Inv (rnew body)) by (unfold Inv, rnew, rlen; cbn [rpos rbuf]; lia).
+  destruct (Z_lt_le_dec (zlen body) 8) as [Hshort|Hb8].
+  - (* fewer than 8 body bytes (only behind a 16-byte header): len(data) < 8 on one path, nrDataBytes < 0 on the other *)
+    unfold senc_body_r. replace (zlen body <? 8) with true by lia.
+    assert (HIf : Inv (fr pre post (rnew body))) by (apply Inv_fr; [exact HI0|exact Hs]).
+    destruct (read_fixed_spec 4 _ HIf ltac:(lia)) as [vf [t1 [F1 [J1 _]]]]. rewrite F1. cbn [rbind].
+    destruct (0 <? vf / 16777216)%N; [reflexivity|].
+    destruct (read_fixed_spec 4 t1 J1 ltac:(lia)) as [cnt [t2 [F2 _]]]. rewrite F2. cbn [rbind].
+    replace (zlen body - 8 <? 0) with true by lia. reflexivity.
+  - unfold senc_body_r. replace (zlen body <? 8) with false by lia.
+    destruct (read_fixed_in2 4 (rnew body) eq_refl ltac:(cbn; lia) ltac:(lia) ltac:(unfold rlen, rnew; cbn [rpos rbuf]; lia)) as [l1 [G1 F1]].
+    cbn [rnew rbuf rpos] in G1. change (0 + 4) with 4 in G1. rewrite G1, F1. cbn [rbind].
+    destruct (0 <? be l1 0 / 16777216)%N; [reflexivity|].
+    set (s1 := with_pos (rnew body) (rpos (rnew body) + 4)).
+    assert (P1 : rpos s1 = 4) by reflexivity. assert (B1 : rbuf s1 = body) by reflexivity. assert (R1 : rerr s1 = false) by reflexivity.
+    destruct (read_fixed_in2 4 s1 R1 ltac:(lia) ltac:(lia) ltac:(unfold rlen; rewrite B1, P1; lia)) as [l2 [G2 F2]].
+    rewrite B1, P1 in G2. change (4 + 4) with 8 in G2. rewrite G2, F2. cbn [rbind].
+    set (s2 := with_pos s1 (rpos s1 + 4)).
+    assert (P2 : rpos s2 = 8) by reflexivity. assert (B2 : rbuf s2 = body) by reflexivity. assert (R2 : rerr s2 = false) by reflexivity.
+    replace (zlen body - 8 <? 0) with false by lia.
+    (* the raw payload: data[8:] on one side, ReadBytes(payloadLen - 8) on the other *)
+    destruct (read_bytes_in (zlen body - 8) s2 R2 ltac:(lia) ltac:(lia) ltac:(unfold rlen; rewrite B2, P2; lia)) as [raw [G3 [_ F3]]].
+    rewrite B2, P2 in G3. replace (8 + (zlen body - 8)) with (zlen body) in G3 by lia. rewrite G3. cbn [rbind].
+    pose proof (gslice_len _ _ _ _ G3) as Hrl.
+    (* the two sub-sample size tests are the same test *)
+    assert (Hchk : (u64z (zlen body - 8) <? 2 * be l2 0)%N = (zlen raw <? 2 * Z.of_N (be l2 0))).
+    { rewrite Hrl. unfold u64z, two64. rewrite Z.mod_small by (unfold two63 in *; lia). lia. }
+    rewrite Hchk.
+    destruct (hasf (N.land (be l1 0) flags_mask) 2 && (zlen raw <? 2 * Z.of_N (be l2 0)))%bool; [reflexivity|].
+    rewrite F3. cbn [rbind]. unfold fr at 1. cbn [rerr]. unfold with_pos at 1. cbn [rerr].
+    f_equal. f_equal. subst s2 s1. unfold fr, with_pos, rnew. cbn [rbuf rpos rerr].
+    replace (zlen pre + (0 + 4 + 4 + (zlen body - 8))) with (zlen pre + zlen body) by lia. reflexivity.
 Qed.
 
 (* ---------------------------------------------------------------- mdat: compact or 16-byte header, LargeSize on both paths *)
@@ -306,11 +314,10 @@ Lemma trun_large_header_differs :
                tr_samples t = [mkTS 0 7 0 0; mkTS 0 9 0 0]).
 Proof. split; [vm_compute; reflexivity|]. split; [vm_compute; reflexivity|]. eexists _, _. vm_compute. split; reflexivity. Qed.
 
-(* senc behind a 16-byte header (size 25, flags 2, sample_count 1, one raw byte): DecodeSenc tests len(rawData) = 1 < 2 and
-   rejects, DecodeSencSR tests hdr.Size - 16 = 9 >= 2 and accepts *)
+(* senc behind a 16-byte header (size 25, flags 2, sample_count 1, one raw byte): at the pinned text DecodeSenc tested
+   len(rawData) = 1 < 2 and rejected while DecodeSencSR tested hdr.Size - 16 = 9 >= 2 and accepted; since b8f1424 both reject *)
 Definition senc_large_hdr : hdr := mkH name_senc 25 16.
 Definition senc_large_body : list N := [0;0;0;2; 0;0;0;1; 170]%N.
-Lemma senc_large_header_differs :
-  senc_after_body_r senc_large_hdr senc_large_body = Err /\
-  exists v s, senc_sr senc_large_hdr (rnew senc_large_body) = Ok (v, s) /\ se_raw v = [170]%N /\ rerr s = false.
-Proof. split; [vm_compute; reflexivity|]. eexists _, _. vm_compute. repeat split; reflexivity. Qed.
+Lemma senc_large_header_agrees :
+  senc_after_body_r senc_large_hdr senc_large_body = Err /\ senc_sr senc_large_hdr (rnew senc_large_body) = Err.
+Proof. split; vm_compute; reflexivity. Qed.
